@@ -219,3 +219,62 @@ pub fn cached(seed: u64, stream: u64, mspec: &str) -> &'static Vec<Sample> {
     let mut g = m.lock().unwrap();
     *g.entry(key).or_insert(p)
 }
+
+/// An honest start message with everything a verifier needs: (amount, nonce, proof, context) —
+/// produced by a real customer one payment into a channel; the merchant accepts it (asserted by
+/// the callers' positive controls).
+pub struct PaySample {
+    pub amount: i64,
+    pub nonce: Vec<u8>,
+    pub proof: crate::atoms::Trace,
+    pub ctx: Vec<u8>,
+    pub cust_before: u64,
+    pub merch_before: u64,
+    pub cid: [u8; 32],
+}
+
+fn make_pay_sample(k: u64, mspec: &str) -> PaySample {
+    let m = merchant(mspec);
+    let mut rng = SimRng::new(0x9A75A, &format!("harvest/pay-sample/{}/{}", mspec, k));
+    let mr = za::MerchantRandomness::new(&mut rng);
+    let cr = za::CustomerRandomness::new(&mut rng);
+    let cid = za::ChannelId::new(mr, cr, m.cfg.signing_keypair().public_key(), b"merchant-account", b"customer-account");
+    let ctx = za::Context::new(format!("pay-sample-est-{}", k).as_bytes());
+    let cb0 = 500 + 37 * k;
+    let mb0 = 40 + 3 * k;
+    let cb = za::CustomerBalance::try_new(cb0).unwrap();
+    let mb = za::MerchantBalance::try_new(mb0).unwrap();
+    let (req, proof) = za::customer::Requested::new(&mut rng, &m.ccfg, cid, mb, cb, &ctx);
+    let (cs, vbs) = m.cfg.initialize(&mut rng, &cid, cb, mb, proof, &ctx).unwrap_or_else(|| honest_fail("initialize"));
+    let inactive = req.complete(cs, &m.ccfg).unwrap_or_else(|_| honest_fail("complete"));
+    let pt = m.cfg.activate(&mut rng, vbs);
+    let ready = inactive.activate(pt, &m.ccfg).unwrap_or_else(|_| honest_fail("activate"));
+    let amount: i64 = if k % 2 == 0 { 11 + k as i64 } else { -(5 + k as i64) };
+    let amt = if amount >= 0 { za::PaymentAmount::pay_merchant(amount as u64) } else { za::PaymentAmount::pay_customer((-amount) as u64) }.unwrap();
+    let ctx_bytes = format!("pay-sample-pay-{}", k).into_bytes();
+    let pctx = za::Context::new(&ctx_bytes);
+    let (_started, sm) = ready.start(&mut rng, amt, &pctx, &m.ccfg).unwrap_or_else(|_| honest_fail("start"));
+    PaySample {
+        amount,
+        nonce: atoms::encode(&sm.nonce),
+        proof: atoms::trace(&sm.pay_proof),
+        ctx: ctx_bytes,
+        cust_before: cb0,
+        merch_before: mb0,
+        cid: cid.to_bytes(),
+    }
+}
+
+pub fn pay_sample(k: u64, mspec: &str) -> &'static PaySample {
+    use std::collections::BTreeMap;
+    use std::sync::{Mutex, OnceLock};
+    static C: OnceLock<Mutex<BTreeMap<(u64, String), &'static PaySample>>> = OnceLock::new();
+    let m = C.get_or_init(|| Mutex::new(BTreeMap::new()));
+    let key = (k, mspec.to_string());
+    if let Some(p) = m.lock().unwrap().get(&key) {
+        return p;
+    }
+    let p: &'static PaySample = Box::leak(Box::new(make_pay_sample(k, mspec)));
+    let mut g = m.lock().unwrap();
+    *g.entry(key).or_insert(p)
+}
